@@ -4,7 +4,7 @@
 
 package activations
 
-//@ define libT(x) := imp(x != nil, tinv(x) && preexisting(x))
+//@ define libT(x) := imp(x != nil, tinv(x) && published(x))
 //@ define oneInput(xs) := len(xs) == 1 && xs[0] != nil
 
 //@ func NewRelu
@@ -50,7 +50,7 @@ package activations
 
 // C14: max(0, x)
 //@ func Relu.forward
-//@   requires tinv(x) && preexisting(x)
+//@   requires tinv(x) && published(x)
 //@   ensures[C14] err == nil && y != nil && sameShape(y, x) && forallJ(J, imp(inb(y, J), el(y, J) == fmaxr(0, el(x, J))))
 //@ func Relu.Forward
 //@   public
@@ -61,7 +61,7 @@ package activations
 // C14: max(0, x) + m * min(0, x)
 //@ func LeakyRelu.forward
 //@   wants same
-//@   requires tinv(x) && preexisting(x)
+//@   requires tinv(x) && published(x)
 //@   ensures[C14] err == nil && y != nil && sameShape(y, x) && forallJ(J, imp(inb(y, J), el(y, J) == fmaxr(0, el(x, J)) + c.m * fminr(0, el(x, J))))
 //@ func LeakyRelu.Forward
 //@   public
@@ -72,7 +72,7 @@ package activations
 // C14: 1 / (1 + exp(-x))
 //@ func Sigmoid.forward
 //@   wants same
-//@   requires tinv(x) && preexisting(x)
+//@   requires tinv(x) && published(x)
 //@   ensures[C14] err == nil && y != nil && sameShape(y, x) && forallJ(J, imp(inb(y, J), el(y, J) == 1 / (1 + exp(0 - el(x, J)))))
 //@ func Sigmoid.Forward
 //@   public
@@ -81,7 +81,7 @@ package activations
 //@   ensures[C14] imp(err == nil, y != nil && sameShape(y, xs[0]) && forallJ(J, imp(inb(y, J), el(y, J) == 1 / (1 + exp(0 - el(xs[0], J))))))
 
 //@ func Tanh.forward
-//@   requires tinv(x) && preexisting(x)
+//@   requires tinv(x) && published(x)
 //@   ensures[C14] err == nil && y != nil && sameShape(y, x) && forallJ(J, imp(inb(y, J), el(y, J) == tanh(el(x, J))))
 //@ func Tanh.Forward
 //@   public
@@ -91,7 +91,7 @@ package activations
 
 // C14: along the configured dimension d, exp(x) divided by the sum of exp(x) over the fibre through the position
 //@ func Softmax.forward
-//@   requires tinv(x) && preexisting(x) && 0 <= c.dim && c.dim < rank(x)
+//@   requires tinv(x) && published(x) && 0 <= c.dim && c.dim < rank(x)
 //@   uses projInb, delInbUnsq, unsqRed
 //@   usesdef sumPos
 //@   witness e = x
